@@ -300,6 +300,14 @@ func checkC14(c *Check) {
 	// what a check writes into its answer reaches only the user agent of that check
 	responseFreshPerCheck(c, "C14.R2", R)
 	secretDataStaysSecret(c, "C14.R1")
+	if c.ID == "C14" {
+		// what is forwarded is what this filter configured: an override is merged into an own copy of the defaults (C18.R3)
+		importObls(c, "C18", checkC18, "C14.R2", func(o *Obligation) bool { return strings.HasPrefix(o.Key, "C18.R3/merge-into-own-copy") })
+		// the values a login hands to the browser and the PKCE verifier are independent CSPRNG draws (C06.R1, C06.R3)
+		importObls(c, "C06", checkC06, "C14.R1", func(o *Obligation) bool {
+			return strings.HasPrefix(o.Key, "C06.R1/") || strings.HasPrefix(o.Key, "C06.R3/stateless")
+		})
+	}
 	// the OK writer forwards what the matched filter configures: the handler is the filter's own
 	if pc := processInvoke(P, R); c.Anchor("C14.R2", "Handler.Process invocation in Check", pc != nil) {
 		handlerBuiltPerCheck(c, "C14.R2", R.CheckEntry, pc)
